@@ -145,6 +145,9 @@ static std::vector<Instance> instances(const std::string &tier) {
 		fd.readers = {{0, uint64_t(1) << 4, 0}};
 		add("S12-full-depth-path", Bq, fd);
 	}
+	// two readers at once (find() may keep per-tree state between calls: readers must not disturb each other); the keys sit
+	// in different leaves and share their last nibble
+	add("S13-two-readers-different-leaves", 2, Script{{{false, A}, {false, B}}, {{false, D}}, {{A, B, A}, {B, A, B}}});
 	add("S11-absent-keys-while-erasing", Bq, Script{{{false, A}, {false, D}}, {{true, A}, {false, A + 0x30}}, {{A + 0x10, A + 0x30, D + 0x10}}});
 	if(th) {
 		add("S6-two-readers", 2, Script{{{false, A}}, {{false, B}, {false, D}}, {{A, B}, {D, A}}});
